@@ -88,6 +88,10 @@ def _apply_edit(src, st):
     """the user edits a Source IN PLACE, through its arrays"""
     k = st['k'] % len(src.valid)
     v = int(src.valid[k])
+    if src.flux.dtype.kind in 'iu' or src.error.dtype.kind in 'iu':
+        # integer-held photometry cannot be rescaled in place: the user assigns float arrays instead
+        src.flux = src.flux.astype(float)
+        src.error = src.error.astype(float)
     if st['kind'] == 'scale':
         src.flux[:] *= st['c']
         src.error[:] *= st['c']
@@ -194,7 +198,8 @@ def _execute(sc, sim, out):
         return
     pre = {}
     for key, content in sorted(needed.items()):
-        rr = pipe.call(rf0[1].fit, make_source(content))
+        # (plain float lists: how the caller holds the numbers - tuples, big-endian, strided or integer arrays - must not matter)
+        rr = pipe.call(rf0[1].fit, make_source({k_: v_ for k_, v_ in content.items() if k_ != 'arrays'}))
         if rr[0] != 'ok':
             out.discarded = 'setup-reference-fit:' + pipe.exc_name(rr)
             return
